@@ -73,11 +73,6 @@ theorem scanCodons_ok (c : CDS) (h : WFCDS c)
 
 /-! ### first codon -/
 
-/-- what a caller observes of the start-codon predicates: Python's escaping StopIteration counts as "raised" -/
-def obsOpt : Option (Option Bool) → Option Bool
-  | some (some b) => some b
-  | _ => none
-
 theorem firstCodon_kept (c : CDS) (lk : List Char) (h2 : extractSequence c = .ok (triples lk).flatten)
     (hch : chunks3 (triples lk).flatten = triples lk)
     (hok : ∀ ch ∈ triples lk, ch.length = 3 ∧ ∀ x ∈ ch, x.toUpper ∈ Gen.codonAlphabet) :
@@ -96,7 +91,7 @@ theorem startCodon_ok (c : CDS) (h : WFCDS c)
     (hkept : c.loc.blocks.length = 1 ∨ cdsKept c.loc (specFrames c) ≠ [])
     (chrom : List Char) (hs : SeqOK c chrom) (halpha : ∀ ch ∈ chrom, ch.toUpper ∈ Gen.codonAlphabet)
     (t : Nat) (starts : List (List Char)) (ht : startCodonsOf t = some starts) :
-    okFirstCodon (specOf c) starts (obsOpt (ans (hasStartCodonIn c (t : Int)))) = true := by
+    okFirstCodon (specOf c) starts (ans (hasStartCodonIn c (t : Int))) = true := by
   obtain ⟨lk, h1, h2⟩ := extractSequence_kept c h hshallow hkept chrom hs
   have hcl := codonLetters_eq c chrom hs.seq lk h1
   obtain ⟨hch, hok⟩ := chunks_of_kept chrom c.loc.strand _ lk h1 halpha
@@ -105,17 +100,17 @@ theorem startCodon_ok (c : CDS) (h : WFCDS c)
   unfold okFirstCodon hasStartCodonIn
   simp only [hcl, hfc, hmap, bind, Except.bind]
   cases ht2 : triples lk with
-  | nil => simp [obsOpt, pure, Except.pure]
+  | nil => simp [pure, Except.pure]
   | cons x xs =>
     simp only [List.head?_cons, Option.map_some, List.map_cons, isStartCodonIn_eq (upperStr x) t starts ht,
-      pure, Except.pure, ans_ok, obsOpt]
+      ans_ok]
     simp
 
 theorem canonicalStart_ok (c : CDS) (h : WFCDS c)
     (hshallow : shallowTrim (exonWalk c.loc (specFrames c)) = true)
     (hkept : c.loc.blocks.length = 1 ∨ cdsKept c.loc (specFrames c) ≠ [])
     (chrom : List Char) (hs : SeqOK c chrom) (halpha : ∀ ch ∈ chrom, ch.toUpper ∈ Gen.codonAlphabet) :
-    okFirstCodon (specOf c) ["ATG".toList] (obsOpt (ans (hasCanonicalStartCodon c))) = true := by
+    okFirstCodon (specOf c) ["ATG".toList] (ans (hasCanonicalStartCodon c)) = true := by
   obtain ⟨lk, h1, h2⟩ := extractSequence_kept c h hshallow hkept chrom hs
   have hcl := codonLetters_eq c chrom hs.seq lk h1
   obtain ⟨hch, hok⟩ := chunks_of_kept chrom c.loc.strand _ lk h1 halpha
@@ -124,9 +119,9 @@ theorem canonicalStart_ok (c : CDS) (h : WFCDS c)
   unfold okFirstCodon hasCanonicalStartCodon
   simp only [hcl, hfc, hmap, bind, Except.bind]
   cases ht2 : triples lk with
-  | nil => simp [obsOpt, pure, Except.pure]
+  | nil => simp [pure, Except.pure]
   | cons x xs =>
-    simp only [List.head?_cons, Option.map_some, List.map_cons, pure, Except.pure, ans_ok, obsOpt]
+    simp only [List.head?_cons, Option.map_some, List.map_cons, pure, Except.pure, ans_ok]
     by_cases hx : upperStr x = "ATG".toList
     · simp [hx]
     · have hx' : ¬ upperStr x = ['A', 'T', 'G'] := hx
@@ -380,8 +375,12 @@ theorem cachedSeq_ok (c : CDS) (h : WFCDS c)
     | ok ms =>
       rw [hl] at hcod
       simp only [ans_ok, okCodons, expectCodons, specOf, CDSIn.codons, cdsCodons] at hcod
-      have := cached_mapM chrom c.loc.strand h.dir _ ms _ hcod h3 hall
-      simp only [bind, Except.bind, hs.seq, this, pure, Except.pure]
+      simp only [bind, Except.bind]
+      by_cases hem : ms.isEmpty = true
+      · rw [if_pos hem]; exact h2
+      · rw [if_neg hem]
+        have := cached_mapM chrom c.loc.strand h.dir _ ms _ hcod h3 hall
+        simp only [bind, Except.bind, hs.seq, this, pure, Except.pure]
   refine ⟨?_, by rw [hcached, h2]⟩
   unfold okCdsSeq specOf CDSIn.codons cdsCodons
   simp only [hs.seq, hcached, ans_ok, h3, Option.map_some, beq_self_eq_true, Option.isSome_some, Bool.and_self]
